@@ -122,3 +122,15 @@ package issuelink
 //@   props C19
 //@   ensures self.IssueURL != "" ==> result == sprintf1("See: %s", ifaceOf(self.IssueURL))
 //@   ensures self.IssueURL == "" ==> result == stdstrings.IssueReferral
+
+// C19: the standard hint of unimplemented errors: the fixed text, then the URL referral on its
+// own line, or the standard referral text when there is no URL
+//@ func maybeAppendReferral
+//@   props C19
+//@   inline
+//@   requires buf != nil
+
+//@ method (*unimplementedError).ErrorHint
+//@   props C19
+//@   ensures self.IssueURL != "" ==> result == UnimplementedErrorHint + "\n" + sprintf1("See: %s", ifaceOf(self.IssueURL))
+//@   ensures self.IssueURL == "" ==> result == UnimplementedErrorHint + stdstrings.IssueReferral
